@@ -1,4 +1,5 @@
 import PgBifrost.Gen.LedgerSrc
+import PgBifrost.Gen.EmitSrc
 /-! The hand-written ledger model equals the statement-by-statement translation of `ledger.go`. -/
 namespace PgBifrost.LedgerSrcProofs
 open PgBifrost.Ledger PgBifrost.Gen.LedgerSrc
@@ -84,5 +85,32 @@ theorem remove_eq (s : State) (k : Nat) :
   cases hg : itemsGet s.items k with
   | none => simp [hg, pure, bind, Option.bind]
   | some e => simp [hg, pure, bind, Option.bind]
+
+theorem collect_eq_releasable : Gen.EmitSrc.collect = Ledger.releasable := by
+  funext e
+  simp only [Gen.EmitSrc.collect, Ledger.releasable]
+  by_cases h1 : e.commit = 0 <;> by_cases h2 : e.count = e.total <;> simp [h1, h2]
+
+theorem foldl_remove_eq (pre : List Entry) : ∀ s : State,
+    pre.foldl (fun s c => (Gen.LedgerSrc.remove s c.key).getD s) s = pre.foldl (fun s e => Ledger.remove s e.key) s := by
+  induction pre with
+  | nil => intro s; rfl
+  | cons a r ih => intro s; simp only [List.foldl_cons, remove_eq, Option.getD_some]
+
+/-- `emitProgress` as translated = the model's `emit` -/
+theorem emit_eq (s : State) : Gen.EmitSrc.emitProgress s = Ledger.emit s := by
+  unfold Gen.EmitSrc.emitProgress Ledger.emit
+  rw [collect_eq_releasable]
+  cases hp : s.items.takeWhile releasable with
+  | nil => simp
+  | cons a r =>
+    have hlast : (a :: r)[(a :: r).length - 1]? = (a :: r).getLast? := by
+      rw [List.getLast?_eq_getElem?]
+    simp only [List.length_cons, Nat.zero_lt_succ, ↓reduceIte, gt_iff_lt]
+    have h2 : (a :: r)[r.length + 1 - 1]? = (a :: r).getLast? := by simpa using hlast
+    rw [h2, foldl_remove_eq]
+    cases hl : (a :: r).getLast? with
+    | none => simp at hl
+    | some l => simp
 
 end PgBifrost.LedgerSrcProofs
